@@ -192,7 +192,7 @@ pub fn run(args: &Args, sink: &mut Sink, rng: &mut Rng) {
         big_cases.push((d, offs, "big"));
     }
 
-    let mut emit = |stream: &mut Stream, sink: &mut Sink, d: &BTreeSet<u32>, offs: &Vec<u32>, kind: &str, variant: Variant| {
+    let emit = |stream: &mut Stream, sink: &mut Sink, d: &BTreeSet<u32>, offs: &Vec<u32>, kind: &str, variant: Variant| {
         let dv = make_dv(d, variant);
         let vname = match &dv {
             DeletionVector::NoDeletions => "NoDeletions",
@@ -233,7 +233,10 @@ pub fn run(args: &Args, sink: &mut Sink, rng: &mut Rng) {
     };
 
     for (i, (d, offs, kind)) in cases.iter().enumerate() {
+        // DeletionVector::Set::range_cardinality(0..mid+1) folds over the whole range (O(mid)), so the
+        // u32-boundary cases (mid ~ 4e9) are only feasible with the Bitmap representation.
         let variant = match i % 3 {
+            _ if *kind == "u32-boundary" => Variant::Bitmap,
             0 => Variant::Set,
             1 => Variant::Bitmap,
             _ => Variant::FromIter,
@@ -247,7 +250,8 @@ pub fn run(args: &Args, sink: &mut Sink, rng: &mut Rng) {
 
     // DeletionVector::len / contains for the three representations
     for _ in 0..args.vol(150, 1500) {
-        let d = gen_dv(rng, rng.below(4));
+        let cls = rng.below(4);
+        let d = gen_dv(rng, cls);
         let universe = d.iter().next_back().map(|x| *x as u64 + 3).unwrap_or(3);
         let qs: Vec<u32> = (0..rng.range(1, 10)).map(|_| if rng.chance(1, 2) { *rng.pick(&d.iter().copied().chain([0]).collect::<Vec<_>>()) } else { rng.below(universe) as u32 }).collect();
         let variant = *rng.pick(&[Variant::Set, Variant::Bitmap, Variant::FromIter]);
